@@ -71,7 +71,7 @@ fn run(args: &[String]) -> i32 {
                 "C03" => c03(tier),
                 "C04" => c04check(tier),
                 "C05" => c05check(tier),
-                "C06" => { let mut rep = Report::new("C06", tier, "exploration"); rep.rule = "valid message / proposal / commit wrappers: outer mutations (kind, h tag variants, created_at boundaries, content empty / non-base64 / every k-th prefix truncation and character change) and inner mutations re-encrypted under the right exporter secret (every k-th truncation and byte change of the MLS payload, header +1, trailing bytes, degenerate payloads; k=1 in thorough), malformed application payloads, each delivered in receiver states {idle, own pending commit, proposal queued, evicted, next epoch} with an unrelated second group present; welcome mutations x recipient states; every string argument of the uniffi API x 40 malformed strings; oracle: no panic, refused => fingerprint of every group unchanged; distinct = distinct (event kind, mutation, state, result)".into(); c06::run(&mut rep, lab::Bk::Memory, tier != "quick"); if tier != "quick" { c06::run(&mut rep, lab::Bk::Sqlite, false); } c06::key_package_tags(&mut rep); c06::bindings(&mut rep); rep.transitions = rep.evaluations; rep.finish() }
+                "C06" => { let mut rep = Report::new("C06", tier, "exploration"); rep.rule = "valid message / proposal / commit wrappers: outer mutations (kind, h tag variants, created_at boundaries, content empty / non-base64 / every k-th prefix truncation and character change) and inner mutations re-encrypted under the right exporter secret (every k-th truncation and byte change of the MLS payload, header +1, trailing bytes, degenerate payloads; k=1 in thorough), malformed application payloads, each delivered in receiver states {idle, own pending commit, proposal queued, evicted, next epoch} with an unrelated second group present; welcome mutations x recipient states; every string argument of the uniffi API x 40 malformed strings; oracle: no panic, refused => fingerprint of every group unchanged; distinct = distinct (event kind, mutation, state, result)".into(); c06::run(&mut rep, lab::Bk::Memory, tier != "quick"); c06::run(&mut rep, lab::Bk::Sqlite, false); c06::key_package_tags(&mut rep); c06::bindings(&mut rep); rep.transitions = rep.evaluations; rep.finish() }
                 "C07" => c07(tier),
                 "C08" => c08(tier),
                 "C09" => { let mut rep = Report::new("C09", tier, "model_checking"); rep.rule = "every sequence of storage operations up to the tier's depth over the snapshot alphabet (writes inside and outside the snapshot scope on 2 groups, create/rollback/release/prune, 2 names), both backends + reference model compared on every return value and on the whole read surface; distinct = distinct reference-model states".into(); storex::check_c09(&mut rep, tier != "quick"); rep.finish() }
@@ -263,6 +263,33 @@ fn c07(tier: &str) -> i32 {
         j.members = Some(vec!["Z".into()]);
         jobs.push(j);
     }
+    // a follow-up commit whose wrapper is older than its predecessor's (sender clock behind), and one that ties with it and
+    // has the smaller id: re-delivering it must not make it look like a better competitor of its predecessor
+    {
+        use scenario::{ActKind, act};
+        for (name, ts2, nib1, nib2) in [("skewed-clock-follow-up", 10u64, None, None), ("tied-follow-up-smaller-id", 20u64, Some(9u8), Some(1u8))] {
+            let mut first = act("B", ActKind::Rename("first".into()), 20);
+            let mut second = act("A", ActKind::Rename("follow-up".into()), ts2);
+            if let (Some(a), Some(b)) = (nib1, nib2) {
+                first = first.nib(a);
+                second = second.nib(b);
+            }
+            let sc = families::base(name, &["A", "B", "Z"], &["A", "B"], &[], vec![first.then(vec![second])]);
+            let mut j = E1Job::new(sc);
+            j.regimes = vec![explore::Regime::Causal];
+            jobs.push(j);
+        }
+    }
+    // the memory backend at its per-group message capacity: confirming an own message (a re-save) evicts nothing
+    {
+        use scenario::{ActKind, act};
+        let mut sc = families::base("at-message-capacity", &["A", "B", "Z"], &["A"], &[], vec![act("B", ActKind::Msg("older-1".into()), 5), act("B", ActKind::Msg("older-2".into()), 5), act("Z", ActKind::Msg("own-newest".into()), 5)]);
+        sc.cfg.memory_max_messages_per_group = Some(3);
+        let mut j = E1Job::new(sc);
+        j.regimes = vec![explore::Regime::Causal];
+        j.members = Some(vec!["Z".into()]);
+        jobs.push(j);
+    }
     // a refused commit in the pool: what it left behind must not change how the applied commit is treated later
     for (sc, _) in families::c01_quick().into_iter().take(if tier == "quick" { 2 } else { 6 }) {
         let mut j = E1Job::new(sc);
@@ -419,6 +446,17 @@ fn c02(tier: &str) -> i32 {
     if tier != "quick" {
         jobs.extend(jobs_from(families::c02_quick()).into_iter().map(|j| j.backend(lab::Bk::Sqlite)));
     }
+    // a member's own message, still unconfirmed, on a branch that then loses (both backends: invalidation is a statement of its own in SQLite)
+    {
+        use scenario::{ActKind, act};
+        let sc = families::base("own-unconfirmed-on-loser", &["A", "B", "Z"], &["A", "B"], &[], vec![act("A", ActKind::Rename("winner".into()), 10), act("B", ActKind::Rename("loser".into()), 20).then(vec![act("Z", ActKind::Msg("sent-on-the-losing-branch".into()), 5)])]);
+        for bk in [lab::Bk::Memory, lab::Bk::Sqlite] {
+            let mut j = E1Job::new(sc.clone()).backend(bk);
+            j.regimes = vec![explore::Regime::Causal];
+            j.members = Some(vec!["Z".into()]);
+            jobs.push(j);
+        }
+    }
     // forward window much larger than the tolerance (and the other way round in the thorough tier): per-delivery oracle only
     let mut fj = vec![families::fwd_jump(5, 1, 100)];
     if tier != "quick" {
@@ -527,6 +565,29 @@ fn c03(tier: &str) -> i32 {
         jobs.push(j);
     }
     run_e1(jobs, &|cx, rep, _| props_e1::check_c03(cx, rep), &mut rep);
+    // members' own graphs: a removal that wins a race against another member's commit; nobody who settles keeps the removed user
+    {
+        use scenario::{ActKind, act};
+        let m = ["A", "B", "C", "X", "Z"];
+        let ad = ["A", "B"];
+        let mut v = vec![
+            families::base("removal-wins-vs-selfupdate", &m, &ad, &[], vec![act("A", ActKind::Remove("X".into()), 10).then(vec![act("Z", ActKind::Msg("after-removal".into()), 5)]), act("C", ActKind::SelfUpdate, 20)]),
+            families::base("removal-wins-vs-rename", &m, &ad, &[], vec![act("A", ActKind::Remove("X".into()), 10).then(vec![act("Z", ActKind::Msg("after-removal".into()), 5)]), act("B", ActKind::Rename("loser".into()), 20)]),
+        ];
+        if tier != "quick" {
+            v.push(families::base("removal-wins-on-tie", &m, &ad, &[], vec![act("A", ActKind::Remove("X".into()), 10).nib(1), act("B", ActKind::Rename("loser".into()), 10).nib(9)]));
+        }
+        let mut jobs2: Vec<E1Job> = Vec::new();
+        for sc in v {
+            for bk in if tier == "quick" { vec![lab::Bk::Memory] } else { vec![lab::Bk::Memory, lab::Bk::Sqlite] } {
+                let mut j = E1Job::new(sc.clone()).backend(bk);
+                j.regimes = vec![explore::Regime::Causal];
+                j.members = Some(vec!["A".into(), "B".into(), "C".into(), "Z".into()]);
+                jobs2.push(j);
+            }
+        }
+        run_e1(jobs2, &|cx, rep, _| props_e1::check_c03_roster(cx, rep), &mut rep);
+    }
     rep.finish()
 }
 
@@ -539,6 +600,8 @@ fn c04check(tier: &str) -> i32 {
     }
     c04::cross_group_rollback(&mut rep, lab::Bk::Memory);
     c04::cross_group_rollback(&mut rep, lab::Bk::Sqlite);
+    c04::resave_cases(&mut rep, lab::Bk::Memory);
+    c04::resave_cases(&mut rep, lab::Bk::Sqlite);
     rep.finish()
 }
 
@@ -549,6 +612,7 @@ fn c05check(tier: &str) -> i32 {
     if tier != "quick" {
         c05::run(&mut rep, lab::Bk::Sqlite, true);
     }
+    c05::tree_with_holes(&mut rep, lab::Bk::Memory);
     rep.finish()
 }
 
